@@ -111,6 +111,8 @@ pub fn panic_class(msg: &str) -> String {
         "div-zero".into()
     } else if msg.contains("out of range") || msg.contains("out of bounds") {
         "index".into()
+    } else if msg.contains("long fork detected") {
+        "long-fork".into()
     } else {
         let short: String = msg.chars().take(60).collect();
         format!("other:{}", short)
@@ -124,6 +126,12 @@ pub fn model_class(ans: &str) -> String {
         let site: u64 = rest.trim().parse().unwrap_or(0);
         let c = super::site_class(site);
         format!("panic {}", c)
+    } else if ans.starts_with("panic index ") {
+        "panic index".to_string()
+    } else if ans.starts_with("panic deliberate ") {
+        "panic long-fork".to_string()
+    } else if let Some(rest) = ans.strip_prefix("panic expect ") {
+        format!("panic expect {}", rest)
     } else {
         ans.to_string()
     }
